@@ -61,11 +61,19 @@ func (pc *parentController) callHook(
 		return nil, nil
 	}
 
+	// Null entries carry nothing to reconcile; drop them here, because the maps of
+	// desired children built from this list dereference every entry.
+	children := make([]*unstructured.Unstructured, 0, len(response.Children))
 	for _, child := range response.Children {
+		if child == nil {
+			continue
+		}
 		if child != nil && child.GetNamespace() == "" {
 			child.SetNamespace(parent.GetNamespace())
 		}
+		children = append(children, child)
 	}
+	response.Children = children
 
 	return &response, nil
 }
